@@ -4,7 +4,7 @@ from __future__ import annotations
 import ast
 import z3
 
-from .values import (Unsupported, EnumVal, SEnum, SSet, GList, SStr, SObj, ExcVal, BuiltinExcClass, Closure, NativeFn,
+from .values import (Unsupported, EnumVal, SEnum, SSet, GList, SStr, SObj, ExcVal, BuiltinExcClass, Closure, NativeFn, XList,
                      BoundMethod, str_concat, str_len, str_map_chars, str_count, nonneg, to_z3_string)
 from .source import ClassInfo, FuncInfo
 
@@ -28,6 +28,9 @@ def call_builtin(I, name, args, kwargs, env):
             return simp(z3.Sum([z3.If(zbool(g), 1, 0) for g, _ in x.items] or [z3.IntVal(0)]))
         if isinstance(x, SSeq):
             return I.pipes.observable(x, 'len')
+        if isinstance(x, XList):
+            base = I.pipes.observable(x.base, 'len') if x.base is not None else 0
+            return simp(zint(base) + len(x.items)) if not isinstance(base, int) else base + len(x.items)
         if isinstance(x, SObj):
             m = x.cls.find_method('__len__')
             if m is not None:
@@ -266,7 +269,7 @@ def isinstance_one(I, v, ty):
         if n == 'bool':
             return isinstance(v, bool) or is_bool_sym(v)
         if n == 'list':
-            return isinstance(v, (list, GList)) or (isinstance(v, SSet) and v.kind == 'list') or (isinstance(v, SSeq) and v.kind == 'list')
+            return isinstance(v, (list, GList, XList)) or (isinstance(v, SSet) and v.kind == 'list') or (isinstance(v, SSeq) and v.kind == 'list')
         if n == 'tuple':
             return isinstance(v, tuple) or (isinstance(v, SSet) and v.kind == 'tuple') or (isinstance(v, SSeq) and v.kind == 'tuple')
         if n == 'set':
@@ -299,6 +302,21 @@ def isinstance_one(I, v, ty):
 def call_method(I, recv, name, args, kwargs):
     from .interp import simp, zint, zbool, is_sym, _and, _or, _not
     from .seq import SSeq
+    if isinstance(recv, XList):
+        if name == 'append':
+            I.note_write(recv, 'list.append')
+            recv.items.append(args[0])
+            return None
+        if name == 'extend':
+            I.note_write(recv, 'list.extend')
+            recv.items.extend(I.iterate(args[0]))
+            return None
+        if name == 'copy':
+            return XList(recv.base, recv.items, False)
+        if name == 'pop' and not args and recv.items:
+            I.note_write(recv, 'list.pop')
+            return recv.items.pop()
+        raise Unsupported(f'method {name} on a symbolic list')
     if isinstance(recv, SSeq):
         return I.loops.seq_method(I, recv, name, args, kwargs)
     if isinstance(recv, (str, SStr)):
@@ -524,6 +542,9 @@ def str_method(I, s, name, args, kwargs):
         if isinstance(p, str) and S.parts and S.parts[-1][0] == 'lit' and len(S.parts[-1][1]) >= len(p):
             return S.parts[-1][1].endswith(p)
         return I.loops.str_endswith(I, S, p)
+    if name == 'splitlines' and not args:
+        from .interp import Opaque
+        return Opaque('lines', (s,))
     if name in ('isnumeric', 'isdigit', 'isalpha'):
         raise Unsupported(f'{name} on symbolic string')
     raise Unsupported(f'str.{name} on symbolic string')
